@@ -18,6 +18,7 @@ import (
 	"fmt"
 
 	"github.com/XiaoMi/Gaea/backend"
+	sqlerr "github.com/XiaoMi/Gaea/core/errors"
 	"github.com/XiaoMi/Gaea/log"
 	"github.com/XiaoMi/Gaea/mysql"
 	"github.com/XiaoMi/Gaea/util/sync2"
@@ -271,6 +272,11 @@ func (cc *ClientConn) writeOKResultStream(status uint16, rs *mysql.Result, conti
 	if rs.Resultset != nil {
 		globalFields = rs.Resultset.Fields
 	}
+	// rows sent so far: the row limit is a limit on the whole result, not on each chunk
+	deliveredRows := 0
+	if rs.Resultset != nil {
+		deliveredRows = len(rs.Resultset.RowDatas)
+	}
 	err := cc.writeOKResult(status, continueConn.MoreRowsExist(), rs)
 	if err != nil {
 		log.Warn("write result stream, write ok result error: %v", err)
@@ -285,6 +291,11 @@ func (cc *ClientConn) writeOKResultStream(status uint16, rs *mysql.Result, conti
 		if err = continueConn.FetchMoreRows(result, maxRows); err != nil {
 			log.Warn("write result stream, more rows exist, fetch more rows error: %v", err)
 			return err
+		}
+		deliveredRows += len(result.RowDatas)
+		if maxRows > 0 && deliveredRows > maxRows {
+			log.Warn("write result stream, more rows exist, rows limit %d exceeded", maxRows)
+			return fmt.Errorf("%v %d", sqlerr.ErrRowsLimitExceeded, maxRows)
 		}
 		if isBinary {
 			if err = result.BuildBinaryResultSet(); err != nil {
